@@ -253,6 +253,13 @@ func dencoStructural(c *Ctx, r2, r3, r4, r5 string) {
 		}
 		c.obI(r2, staticLk, "static-hit-decided-by-presence", okPresence, "the static fast path answers 'found' exactly when the path is a key of the static map (comma-ok), not when the stored value happens to be non-nil", "the static hit is not decided by the map's comma-ok result: a pattern registered with a nil value is not found (a parameterised sibling can then win)")
 	}
+	if staticLk != nil {
+		// … and on EVERY path: no exit of Lookup lies in front of the static map (whatever the path contains — the
+		// termination byte, say — a path equal to a parameter-free pattern is found)
+		for _, r := range realReturns(rl) {
+			c.obI(r2, r, "static-map-consulted-before-any-exit", !pathExists(rl, nil, r, nil, isOneOf(staticLk)), "every return of Lookup lies behind the static-map lookup", "Lookup can answer without having consulted the static map")
+		}
+	}
 	c.obF(r2, rl, "static-first", okFirst, "Lookup consults the static map with the whole path first: a path equal to a parameter-free pattern returns that pattern's value", "")
 	mk := p.Fn("rt/middleware/denco.makeRecords")
 	// records classified by the three parameter markers; termination byte appended to parameterised keys
